@@ -58,11 +58,26 @@ def ext_payload(rng, impl, kind):
 _HARVESTED = None
 
 
+def _corpus(side):
+    """the committed corpus of harvested extensions (harness/corpus_extensions.json): fixed, so that a tree that starts to refuse an
+    extension cannot thereby take it out of the generated hellos; None when the file is missing (then harvested afresh)"""
+    import json
+    import os
+    path = os.path.join(os.path.dirname(os.path.abspath(__file__)), 'corpus_extensions.json')
+    try:
+        with open(path) as f:
+            return sorted((int(t), p) for t, p in json.load(f)[side])
+    except (OSError, ValueError, KeyError):
+        return None
+
+
 def harvested_client_extensions():
     """(type, payload hex) of the extensions the repository tests parse on their own and a client hello may carry: every extension
     class of the library (session ticket, key share, status request, padding, ...) is thereby met inside a hello, in front of
     other extensions, not only alone"""
     global _HARVESTED
+    if _HARVESTED is None:
+        _HARVESTED = _corpus('client')
     if _HARVESTED is None:
         from harness import sweep
         from cryptoparser.tls.extension import TlsExtensionVariantClient
@@ -88,6 +103,8 @@ _HARVESTED_SERVER = None
 def harvested_server_extensions():
     """the same for the extensions a server hello may carry (parsed by the server variant)"""
     global _HARVESTED_SERVER
+    if _HARVESTED_SERVER is None:
+        _HARVESTED_SERVER = _corpus('server')
     if _HARVESTED_SERVER is None:
         from harness import sweep
         from cryptoparser.tls.extension import TlsExtensionVariantServer
